@@ -231,7 +231,7 @@ def convert (v0 : GoVal) (t : ParamTy) (budget : Int := 1000000) : Res Cause GoV
     | .time u => (timeString u).bind fun b => .ok (.str b)
     -- a whole-number float is the text an object node prints (`writeObject`), not fmt's exponent form
     | .flt k q => (if isWholeSmall q then fmtFloatF k q else fmtFloatG k q).bind fun b => .ok (.str b)
-    | w => (sprint w).bind fun b => .ok (.str b)
+    | w => (sprintR w).bind fun b => .ok (.str b)       -- `fmt.Sprint(ResolveDrops(value))`
   | .anys =>
     match v with
     | .mapSlice kvs => .ok (.slice .any (convElems (kvs.map (·.2))))
